@@ -114,6 +114,29 @@ def run(ctx):
             if d is None or d["error_num"] != want:
                 fails.append({"why": "credential restricted to uid=%d gid=%d decoded by peer uid=%d gid=%d gave error %s, expected %d"
                                      % (u, g, du, dg, d and d["error_num"], want)})
+    # "nothing in the request can set or influence" the decoder's identity either: credentials built from the format
+    # description under this daemon's key (a peer node's) whose fields in front of the decision - origin address of every
+    # length, with the wanted identity spelled in every 4-byte position - try to reach it
+    import pyref, struct as _st
+    for (ru, rg) in ((4242, ANY), (ANY, 4343), (4242, 4343), (0, ANY)):
+        want_u = ru if ru != ANY else 1000
+        want_g = rg if rg != ANY else 1000
+        for alen in (0, 3, 4, 5, 8, 12, 16, 20, 24, 64, 255):
+            for pat in ("uid", "gid", "uidgid"):
+                word = {"uid": _st.pack("=I", want_u), "gid": _st.pack("=I", want_g), "uidgid": _st.pack("=II", want_u, want_g)}[pat]
+                addr = (word * 70)[:alen]
+                if pat != "uid" and alen in (4,):
+                    continue
+                cred = pyref.mint(cr.d.key, mac=5, cipher=0, addr=addr, time0=cr.now, ttl=300, uid=5, gid=6, auth_uid=ru, auth_gid=rg,
+                                  data=b"not for uid 1000")
+                d, _ = rig.decode(cr.d.sock, cred, uid=1000 if ru != 1000 else 1001, gid=1000)
+                ctx.count(("dec-origin", ru, rg, alen, pat))
+                dist["dec-origin"] = dist.get("dec-origin", 0) + 1
+                if d is not None and (d["error_num"] in (0, 15, 16, 17) or d["data_len"] != 0):
+                    fails.append({"why": "a credential restricted to (uid %s, gid %s), built under the daemon's key with a %d-byte origin address "
+                                         "spelling that identity, was decoded for the peer uid=1000 gid=1000: error %d, %d payload bytes - a field "
+                                         "of the request reached the identity used for the authorization decision"
+                                         % (ru, rg, alen, d["error_num"], d["data_len"]), "cred_hex": cred.hex()})
     # --- the decoder's identity in the supplementary-group decision: membership of the DECODING uid counts, never
     #     that of the uid recorded in the credential
     db = {"groups": [(800, ["mem"]), (801, ["enc"])], "users": [("mem", 6001), ("enc", 6002), ("out", 6003)]}
